@@ -129,7 +129,10 @@ def tee_case(draw, tier):
     hdr = ["a", "b", "c"][:nf]
     fmt = draw(st.sampled_from(TEES))
     cell = CELL if fmt != "text" else st.one_of(st.text(alphabet="ab\xe9{}\n", max_size=3), st.integers(0, 9), st.none())
-    tbl = draw(gen.table(hdr, [cell] * nf, max_rows=5 if tier == "quick" else 10, ragged=fmt != "text" and draw(st.booleans())))
+    # (text: rows may be SHORT - an absent field is None in the template, for the tee as for totext - but not long)
+    tbl = draw(gen.table(hdr, [cell] * nf, max_rows=5 if tier == "quick" else 10, ragged=draw(st.booleans())))
+    if fmt == "text":
+        tbl = [tbl[0]] + [r[:nf] for r in tbl[1:]]
     kind = draw(st.sampled_from(KINDS))
     c = {"fmt": fmt, "table": tbl, "kind": kind, "passes": draw(st.sampled_from([1, 1, 2])),
          # the target may already hold the (longer) output of an earlier run: a tee replaces it, as to* does
